@@ -119,7 +119,7 @@ package orefafs
 //@   modifies nothing
 
 //@ func (*node).truncate
-//@   requires wheld(nd.mu)
+//@   requires[C08] wheld(nd.mu)
 //@   requires size >= 0 && size < 4611686018427387904
 //@   modifies nd.data, nd.data[*]
 //@   ensures[C02] len(nd.data) == size
@@ -127,28 +127,28 @@ package orefafs
 //@   ensures[C02] forall i int :: len(old(nd.data)) <= i && i < size ==> nd.data[i] == 0
 
 //@ func (*node).size
-//@   requires held(nd.mu)
+//@   requires[C08] held(nd.mu)
 //@   modifies nothing
 //@ func (*node).setOwner
-//@   requires wheld(nd.mu)
+//@   requires[C08] wheld(nd.mu)
 //@   modifies nd.uid, nd.gid
 //@ func (*node).setModTime
-//@   requires wheld(nd.mu)
+//@   requires[C08] wheld(nd.mu)
 //@   modifies nd.mtime
 //@ func (*node).setMode
-//@   requires wheld(nd.mu)
+//@   requires[C08] wheld(nd.mu)
 //@   modifies nd.mode
 //@ func (*node).addChild
-//@   requires wheld(nd.mu)
+//@   requires[C08] wheld(nd.mu)
 //@   modifies nd.children, nd.children[*]
 
 //@ func (*OrefaFS).createNode
-//@   requires wheld(vfs.mu) && parent != nil && vfs.lastId != nil
+//@   requires[C08] wheld(vfs.mu) && parent != nil && vfs.lastId != nil
 //@ func (*node).remove
-//@   requires wheld(nd.mu)
+//@   requires[C08] wheld(nd.mu)
 //@   modifies nd.children, nd.nlink, nd.data
 
 //@ func (*node).dirNames
-//@   requires held(nd.mu)
+//@   requires[C08] held(nd.mu)
 //@ func (*node).dirEntries
-//@   requires held(nd.mu)
+//@   requires[C08] held(nd.mu)
